@@ -302,6 +302,7 @@ func init() {
 		bs := make([]*Term, l)
 		for i := range bs {
 			bs[i] = ip.tb.Var(fmt.Sprintf("%s[%d]", name, i), BV(8))
+			ip.setDom(bs[i].name, 0, 255)
 		}
 		sv.Terms = append(sv.Terms, bs...)
 		sv.Len = l
